@@ -29,6 +29,9 @@ var errStop = errors.New("dbsim: stop after violation")
 
 type panicSentinel struct{}
 
+// junk is the (all-zero, never modified) filler value of pregrow.
+var junk []byte
+
 var errMap = map[dbmodel.Err]error{
 	dbmodel.ErrKeyRequired:        walletdb.ErrKeyRequired,
 	dbmodel.ErrKeyTooLarge:        walletdb.ErrKeyTooLarge,
@@ -46,6 +49,23 @@ type exec struct {
 	committed *dbmodel.Bucket // model of the committed database (root: only Sub is used)
 	pregrown  int64           // bytes the file was pre-grown to (0 = not)
 	strict    bool            // cfg strict_cdel: treat bbolt's delete-then-Next skip as a violation
+	// cfg last_on_emptied: call Cursor.Last even on a bucket that is empty
+	// inside a read-write transaction. Off by default, because bbolt 1.3.11
+	// spins for ever in Cursor.Last when a bucket that spans at least two leaf
+	// pages had all of its keys deleted earlier in the same transaction (the
+	// "skip empty pages" loop in Last calls prev, which calls first, which
+	// leaves the stack on an empty leaf again). A run that reaches it never
+	// returns, so the default workload walks such a bucket forwards only.
+	lastOnEmptied bool
+	// cfg strict_bwd: assert completeness of backward cursor steps even in a
+	// bucket that had keys deleted earlier in the same transaction. Off by
+	// default: bbolt 1.3.11's Cursor.Prev does not step over a leaf page that
+	// was emptied in the running transaction (Next does) and returns nil
+	// there, so a backward walk ends early. Counted as
+	// obs.prev-stopped-at-emptied-page.
+	strictBwd bool
+	// delDirty: model buckets that lost a key in the running transaction.
+	delDirty map[*dbmodel.Bucket]bool
 }
 
 func (x *exec) fail(sig, format string, a ...any) {
@@ -90,7 +110,10 @@ func (x *exec) pregrow(kb int64) bool {
 		if err != nil {
 			return err
 		}
-		return b.Put([]byte("junk"), make([]byte, kb<<10))
+		if int64(len(junk)) < kb<<10 {
+			junk = make([]byte, kb<<10)
+		}
+		return b.Put([]byte("junk"), junk[:kb<<10])
 	})
 	if err == nil {
 		err = walletdb.Update(x.db, func(tx walletdb.ReadWriteTx) error { return tx.DeleteTopLevelBucket(name) })
@@ -144,77 +167,9 @@ func roomToWrite(file string) bool {
 
 // ---------------------------------------------------------------- dumping
 
-type txReader interface {
-	ReadBucket(key []byte) walletdb.ReadBucket
-	ForEachBucket(func(key []byte) error) error
-}
+func dump(tx dbmodel.TxReader) (*dbmodel.Bucket, string) { return dbmodel.DumpTx(tx) }
 
-// dump reads the whole database through a transaction into a model tree.
-// prob describes an ordering / consistency problem seen while reading.
-func dump(tx txReader) (root *dbmodel.Bucket, prob string) {
-	root = dbmodel.NewBucket()
-	var names []string
-	err := tx.ForEachBucket(func(k []byte) error {
-		names = append(names, string(k))
-		return nil
-	})
-	if err != nil {
-		return root, "ForEachBucket: " + err.Error()
-	}
-	for i, n := range names {
-		if i > 0 && names[i-1] >= n {
-			prob = fmt.Sprintf("ForEachBucket not strictly ascending: %x then %x", names[i-1], n)
-		}
-		b := tx.ReadBucket([]byte(n))
-		if b == nil {
-			return root, fmt.Sprintf("ForEachBucket listed %x but ReadBucket returns nil", n)
-		}
-		sub, pr := dumpBucket(b)
-		root.Sub[n] = sub
-		if pr != "" && prob == "" {
-			prob = pr
-		}
-	}
-	return root, prob
-}
-
-func dumpBucket(b walletdb.ReadBucket) (out *dbmodel.Bucket, prob string) {
-	out = dbmodel.NewBucket()
-	out.Seq = b.Sequence()
-	var subs []string
-	prev, first := "", true
-	err := b.ForEach(func(k, v []byte) error {
-		ks := string(k)
-		if !first && prev >= ks {
-			prob = fmt.Sprintf("ForEach not strictly ascending: %x then %x", prev, ks)
-		}
-		prev, first = ks, false
-		if nb := b.NestedReadBucket(k); nb != nil {
-			if v != nil {
-				prob = fmt.Sprintf("ForEach gave a non-nil value for nested bucket %x", ks)
-			}
-			subs = append(subs, ks)
-		} else {
-			out.KV[ks] = append([]byte{}, v...) // only valid during the tx: copy
-		}
-		return nil
-	})
-	if err != nil {
-		return out, "ForEach: " + err.Error()
-	}
-	for _, s := range subs {
-		nb := b.NestedReadBucket([]byte(s))
-		if nb == nil {
-			return out, fmt.Sprintf("nested bucket %x vanished during dump", s)
-		}
-		sub, pr := dumpBucket(nb)
-		out.Sub[s] = sub
-		if pr != "" && prob == "" {
-			prob = pr
-		}
-	}
-	return out, prob
-}
+func dumpBucket(b walletdb.ReadBucket) (*dbmodel.Bucket, string) { return dbmodel.DumpBucket(b) }
 
 // verifyCommitted compares the database, read through a fresh read
 // transaction, with the committed model.
@@ -247,7 +202,8 @@ func (sim) Execute(env *core.Env, p *core.Plan) {
 		return
 	}
 	x := &exec{env: env, p: p, file: filepath.Join(env.Dir, "c11.db"), committed: dbmodel.NewBucket(),
-		strict: p.C("strict_cdel", 0) != 0}
+		strict: p.C("strict_cdel", 0) != 0, lastOnEmptied: p.C("last_on_emptied", 0) != 0,
+		strictBwd: p.C("strict_bwd", 0) != 0}
 	if !x.open(true) {
 		return
 	}
@@ -695,6 +651,7 @@ func (x *exec) readGroup(ops []core.Op, base int, api, out int64) {
 // armed write failure fired, errStop after a violation, nil otherwise.
 func (x *exec) body(tx walletdb.ReadWriteTx, work *dbmodel.Bucket, ops []core.Op, base int) error {
 	env := x.env
+	x.delDirty = map[*dbmodel.Bucket]bool{}
 	for i, o := range ops {
 		if o.K == "tx" {
 			continue
@@ -900,6 +857,9 @@ func (x *exec) rwOp(tx walletdb.ReadWriteTx, work *dbmodel.Bucket, o core.Op) er
 		if isInjected(err) {
 			return err
 		}
+		if _, had := m.KV[string(kb)]; had {
+			x.delDirty[m] = true
+		}
 		if !x.checkErr("Delete", m.Delete(string(kb)), err) {
 			return nil
 		}
@@ -962,6 +922,9 @@ func (x *exec) rwOp(tx walletdb.ReadWriteTx, work *dbmodel.Bucket, o core.Op) er
 		err := b.DeleteNestedBucket(kb)
 		if isInjected(err) {
 			return err
+		}
+		if _, had := m.Sub[string(kb)]; had {
+			x.delDirty[m] = true
 		}
 		if !x.checkErr("DeleteNestedBucket", m.DeleteBucket(string(kb)), err) {
 			return nil
@@ -1029,6 +992,10 @@ func (x *exec) rwOp(tx walletdb.ReadWriteTx, work *dbmodel.Bucket, o core.Op) er
 func (x *exec) cursorDelete(b walletdb.ReadWriteBucket, m *dbmodel.Bucket, o core.Op) error {
 	env := x.env
 	bwd := o.Arg(0)%2 != 0
+	if bwd && m.Len() == 0 && !x.lastOnEmptied {
+		bwd = false
+		env.Count("guard.last-on-empty-bucket-avoided")
+	}
 	stride := mod(o.Arg(1), 5)
 	if stride == 0 {
 		stride = 1
@@ -1086,6 +1053,7 @@ func (x *exec) cursorDelete(b walletdb.ReadWriteBucket, m *dbmodel.Bucket, o cor
 				return nil
 			}
 			delete(m.KV, ks)
+			x.delDirty[m] = true
 			deleted++
 			if got := b.Get([]byte(ks)); got != nil {
 				x.fail("read-own-write:Get:after=CursorDelete", "Get(%x) after cursor Delete returned %s", short([]byte(ks)), dbmodel.Short(got))
@@ -1239,6 +1207,10 @@ type rwCursorer interface {
 // walk checks a complete forward or backward cursor walk.
 func (x *exec) walk(b walletdb.ReadBucket, m *dbmodel.Bucket, bwd, rwc bool, ctx string) bool {
 	keys := m.Keys()
+	if bwd && len(keys) == 0 && ctx == "read-own-write" && !x.lastOnEmptied {
+		bwd = false
+		x.env.Count("guard.last-on-empty-bucket-avoided")
+	}
 	var c walletdb.ReadCursor
 	if rw, ok := b.(rwCursorer); ok && rwc {
 		c = rw.ReadWriteCursor()
@@ -1259,6 +1231,9 @@ func (x *exec) walk(b walletdb.ReadBucket, m *dbmodel.Bucket, bwd, rwc bool, ctx
 		want := keys[i]
 		if bwd {
 			want = keys[len(keys)-1-i]
+		}
+		if k == nil && bwd && i > 0 && x.prevQuirk(m, ctx) {
+			return true
 		}
 		if k == nil || string(k) != want {
 			x.fail("cursor-order:dir="+dir, "cursor walk position %d returned %s, want %x (bytewise %s order)", i, keyOrNil(k), short([]byte(want)), dir)
@@ -1281,6 +1256,16 @@ func (x *exec) walk(b walletdb.ReadBucket, m *dbmodel.Bucket, bwd, rwc bool, ctx
 		x.fail("cursor-value:dir="+dir+":end", "cursor returned a value with a nil key at the end of the walk")
 		return false
 	}
+	return true
+}
+
+// prevQuirk says whether an early nil from Cursor.Prev is tolerated here
+// (see strictBwd) and counts it.
+func (x *exec) prevQuirk(m *dbmodel.Bucket, ctx string) bool {
+	if ctx != "read-own-write" || !x.delDirty[m] || x.strictBwd {
+		return false
+	}
+	x.env.Count("obs.prev-stopped-at-emptied-page")
 	return true
 }
 
@@ -1338,6 +1323,9 @@ func (x *exec) seek(b walletdb.ReadBucket, m *dbmodel.Bucket, o core.Op, ctx str
 		} else {
 			k, v = c.Next()
 			idx++
+		}
+		if k == nil && back && idx >= 0 && x.prevQuirk(m, ctx) {
+			return true
 		}
 		if idx < 0 || idx >= len(keys) {
 			if k != nil {
